@@ -16,7 +16,7 @@ cp /verif/known_findings.txt "$S/verif/"
 hit=1
 for p in "$@"; do
   out=$(/verif/bin/qicheck -property "$p" -tier "${TIER:-quick}" -repo "$S/repo" -verif "$S/verif" 2>&1)
-  echo "$out" | grep -E "^(VIOLATION|UNDECIDED|KNOWN)" | sed "s|$S/repo/||g" | cut -c1-400
+  echo "$out" | grep -E "^(VIOLATION|UNDECIDED) " | grep -v "^VIOLATION property=" | sed "s|$S/repo/||g" | cut -c1-400
   if echo "$out" | grep -q "^VIOLATION property="; then hit=0; echo "== $p: CAUGHT"; else echo "== $p: silent"; fi
 done
 exit $hit
